@@ -1245,6 +1245,83 @@ PROPS["C09"]["level_text"] += (" Line and column (Props/C09LineCol.lean): c09_po
 PROPS["C11"]["level_note"] += " Line/column bookkeeping modelled and proved (Model.LineCol); memchr by contract."
 PROPS["C09"]["level_note"] += " Line/column bookkeeping modelled and proved (Model.LineCol); memchr by contract."
 
+# ---- RawValue, second part: struct fields, to_value / from_value, object captures completed, raw values under a failing
+# ---- reader, failing nested captures across sources (harness/src/c19b.rs, lean/SJ/Drv/C19b.lean). Additive amendments of C19 / C09 / C13.
+PROPS["C19"]["lean_targets"] = PROPS["C19"]["lean_targets"][:-1] + ["SJ.Props.C19Map"] + PROPS["C19"]["lean_targets"][-1:]
+PROPS["C19"]["lean_targets"] = PROPS["C19"]["lean_targets"][:-1] + ["SJ.Props.C19Value"] + PROPS["C19"]["lean_targets"][-1:]
+PROPS["C19"]["lean_targets"] = PROPS["C19"]["lean_targets"][:-1] + ["SJ.Props.C19Struct"] + PROPS["C19"]["lean_targets"][-1:]
+PROPS["C09"]["lean_targets"] = PROPS["C09"]["lean_targets"][:-1] + ["SJ.Props.C09RawNested"] + PROPS["C09"]["lean_targets"][-1:]
+PROPS["C13"]["lean_targets"] = PROPS["C13"]["lean_targets"][:-1] + ["SJ.Props.C13Raw"] + PROPS["C13"]["lean_targets"][-1:]
+PROPS["C19"]["rule"] += (" Op rawfld (harness/src/c19b.rs): real serde_derive structs { a: Box<RawValue>, b: Option<Box<RawValue>>, c: Box<RawValue> } "
+                         "(s1), the same two fields with deny_unknown_fields (s2) and { id: Option<u32>, payload: Box<RawValue>, tail: Box<RawValue> } (s3), each "
+                         "with its borrowed twin (&RawValue fields, which must be subslices of the input), from str, slice and a chunked reader: a fixed "
+                         "corpus (fields in any order, missing / duplicated / unknown / escaped names, null, array form, lone surrogates, invalid UTF-8), "
+                         "every token sequence of length <= 2 (thorough 3) as the value of a raw field, of an Option field, of an unknown field and as a "
+                         "key, 800 (thorough 8000) generated struct documents per shape with 2 mutations each and every prefix of an eighth of them; "
+                         "compared with Model.RawStruct and with the members' spans computed by the independent scanner Spec.Pos. Op rawconv: on the "
+                         "corpus, every token sequence of length <= 2 (thorough 3) and 800 (thorough 8000) generated documents with a mutation each: "
+                         "to_value(&raw) of the captured RawValue against from_str::<Value> of the document, from_value::<Box<RawValue>>(v) (by value and "
+                         "by reference) against to_string(&v), and to_value of that RawValue against v; compared with Model.RawConv.")
+PROPS["C19"]["assumptions"] = [
+    "RawValue's transmutes between str and RawValue (layout) are outside the model",
+    "struct fields captured raw are modelled (Model.RawStruct: the typed model's deserialize_struct / MapAccess machinery and derive's visitor over "
+    "field types raw / Option<raw> / typed) and run by op rawfld against three real serde_derive structs; to_value(&RawValue) and "
+    "from_value::<Box<RawValue>>(v) are modelled (Model.RawConv) and run by op rawconv",
+    "Display for Value cannot fail (c03_display), so ToString's panic in OwnedRawDeserializer { raw_value: Some(self.to_string()) } is unreachable"]
+PROPS["C19"]["partial"] = [
+    "struct fields: c19_field_capture / c19_field_text are proved for structs all of whose fields are Box<RawValue> / Option<Box<RawValue>> "
+    "given in object form; a struct with further typed fields (shape s3 of op rawfld) and the array form (derive's visit_seq) are modelled "
+    "(Model.RawStruct) and tied by correspondence only",
+    "c19_nested_capture / c19_top_complete / c19_field_capture on byte sources take the UTF-8 validity of the captured texts as hypothesis "
+    "(it is what from_utf8 checks); that it follows from the UTF-8 validity of the whole input is proved for the three-source statements "
+    "(C09 c09_raw_sources, c09_raw_nested_str_slice)"]
+PROPS["C19"]["trusted_base"] = PROPS["C19"]["trusted_base"] + [
+    "typed struct machinery of Model.Typed repeated over field types in Model.RawStruct (op rawfld); Display adapter model Model.Display (C03) for from_value"]
+PROPS["C19"]["technique"] += ("; object captures: the converse grammar direction by induction over Members, the comparison with the parsed Value through "
+                              "determinism of the &str capture model; struct fields: derive's visit_map as a pure fold (assign / finishSlots) over the "
+                              "member decomposition of the map theorems; to_value / from_value by composition of C01 / C02 / C03 / C04")
+PROPS["C19"]["level_text"] += (" Second part. Object captures completed (Props/C19Map.lean): c19_nested_complete_map (EVERY object text JsonText bs (obj "
+                               "members), duplicate keys included, is captured member by member when its keys are strings of the target), "
+                               "c19_nested_canon_map (if the same bytes parse into a Value, the i-th capture parses on its own to a value x_i and the Value "
+                               "is the map built by inserting (decoded key_i, x_i) in source order), c19_nested_canon_map_last (so a duplicated key holds "
+                               "what the LAST capture with that key denotes). Struct fields (Props/C19Struct.lean over Model.RawStruct): c19_field_capture "
+                               "(a struct of Box<RawValue> / Option<Box<RawValue>> fields, with or without deny_unknown_fields, succeeds iff the document is "
+                               "ws { members } ws with every key a string of the target, every member value ONE grammar value first to last byte - captured, "
+                               "UTF-8 on byte sources, when the key names a field; only skipped when it does not - and derive's visitor accepts the member "
+                               "sequence: fields in any order, no field twice, no unknown field under deny, only Option fields missing), c19_field_text "
+                               "(then each Box<RawValue> field holds exactly the value text of THE one member its name selects; an Option field None for a "
+                               "missing member or the text null, Some of exactly the text otherwise). RawValue and Value (Props/C19Value.lean over "
+                               "Model.RawConv): c19_to_value (to_value of the RawValue captured from a document succeeds with v iff from_str::<Value> of the "
+                               "document gives v: to_value(raw) is the Value of its text, and fails exactly for a lone surrogate, a number out of range or "
+                               "nesting beyond the limit), c19_to_value_of_parse, c19_to_value_canon (to_value(raw) = v iff the text is a JSON text whose "
+                               "tree denotes v within depth / surrogate / range limits), c19_from_value (from_value::<Box<RawValue>>(v) cannot fail and holds "
+                               "exactly to_string(&v) = render(image v): one grammar value without surrounding whitespace; to_value of it is v again under "
+                               "C04's hypotheses).")
+PROPS["C19"]["level_note"] += " Model.RawStruct and Model.RawConv validated by ops rawfld / rawconv (0 disagreements)."
+PROPS["C09"]["rule"] += (" Failing nested raw captures: the rawnest inputs above (fixed corpus, token sequences, mutations, prefixes) are mostly "
+                         "failing runs; their three outcomes are compared with Model.RawNested per source and with each other (judgePair).")
+PROPS["C09"]["partial"] = [x for x in PROPS["C09"]["partial"] if not x.startswith("c09_raw_nested_sources / c09_raw_map_sources state")]
+PROPS["C09"]["level_text"] += (" Nested raw captures on EVERY input (Props/C09RawNested.lean; deserialize_raw_value inside the two-run simulation of the "
+                               "typed model, Proofs/RawSim.lean): c09_raw_nested_slice_reader / c09_raw_map_slice_reader / c09_raw_one_slice_reader "
+                               "(Vec<Box<RawValue>>, map of Box<RawValue>, Box<RawValue>, clean end or failing reader: slice and reader outcomes identical "
+                               "- same captures, same parser error code at the same index, InvalidUnicodeCodePoint of a non-UTF-8 capture included - except "
+                               "that an error positioned with a byte in the reader's peek slot (the invalid type of an input that is not an array / "
+                               "object) is one byte later from the reader, and then the slice's index is that of a byte of the input), "
+                               "c09_raw_nested_class (same class, index equal or + 1: the predicate judgePair evaluates in op rawnest), "
+                               "c09_raw_nested_str_slice (on valid UTF-8 input the &str source gives the IDENTICAL outcome as the slice, failing runs "
+                               "included: the from_utf8 check of a captured text cannot fail there).")
+PROPS["C13"]["partial"] = []
+PROPS["C13"]["technique"] += ("; raw values: the fault-mode run of deserialize_raw_value inside the typed model's fault / clean simulation, plus an exact "
+                              "analysis of the one read issued beyond a complete value (after a bare number, which is ASCII)")
+PROPS["C13"]["level_text"] += (" Raw values (Props/C13Raw.lean): c13_raw_fault (from_reader::<Box<RawValue>> over a reader that fails after bs, model "
+                               "rawFault: Io, or EXACTLY the clean run's error - same code and index - which is then Syntax-classified and positioned "
+                               "within bs; never a value, never Eof-classified), c13_raw_fault_io (Io iff the clean run accepts or ends Eof-classified), "
+                               "c13_raw_fault_steps (the same for the byte-by-byte transcription: deserialize_raw_value + end() of the typed model with "
+                               "every read beyond bs answering Error::io, against its clean run, which is rawTop: c13_raw_clean_is_rawTop), "
+                               "c13_raw_fault_agrees (that transcription returns exactly what rawFault returns, on every input: the from_utf8 check of "
+                               "the raw buffer is never pre-empted by the fault, because ignore_value reads beyond a complete value only after a bare "
+                               "number, which is ASCII).")
+
 # properties not claimed yet (kept current as checks are added)
 NOT_APPLICABLE = [
     dict(property_id=f"C{i:02d}", reason="check under construction in this build phase; not yet claimed (see DESIGN.md §11 build order)")
